@@ -15,7 +15,7 @@ from __future__ import annotations
 import itertools
 
 from .. import gen, sweep, tabx
-from ..pool import pmap
+from ..pool import pmap, trim_lex_cache
 from ..refsem import sem
 from ..refsem.tables import GENERALISERS, LOGICS
 from ..runner import Report
@@ -296,6 +296,7 @@ def _task(task):
                 continue
             seq = [ops[i] for i in combo]
             out['states'] += 1
+            trim_lex_cache()
             results = {}
             perms = set(itertools.permutations(combo)) if size <= 3 else {combo, tuple(reversed(combo))}
             first = None
